@@ -345,7 +345,9 @@ def key_class(k):
         up = str.upper(k)
         b = any(s in cf for s in MY_KEYS)
         c = any(s in up for s in _MY_UPPER)
-        if hit and b and c:
+        if hit and b:
+            # lower() and casefold() - the two standard notions of caseless matching - both find a sanitize key (e.g. the
+            # Kelvin sign for "k"); that upper() does not map such a character back is no reason to leave the value unmasked
             verdict = 'yes'
         elif not hit and not b and not c:
             verdict = 'no'
